@@ -66,7 +66,7 @@ def sid(tpl):
 # C01 / C03: one step from every catalogue shape
 
 MAP_GROUPS = [('write', 3, ['x']), ('del', 4, ['x']), ('read', 10, ['x']), ('bulk', 3, ['x', 'y'])]
-SET_GROUPS = [('write', 3, ['x', 'y']), ('del', 3, ['x']), ('read', 6, ['x']), ('inplace', 4, ['x', 'y'])]
+SET_GROUPS = [('write', 3, ['x', 'y']), ('del', 3, ['x']), ('read', 7, ['x', 'y']), ('inplace', 4, ['x', 'y'])]
 
 
 def step_obligations(pid, tier, seed, check, mutating_only=False):
@@ -175,6 +175,25 @@ def step_obligations(pid, tier, seed, check, mutating_only=False):
                                     params=dict(family=fam, kernel='tree_get', tpl=tp, has_key=hk), timeout=300 if tier == 'quick' else 600))
         bounds['ir_leaf_kernels'] = '_bucket_get on leaves of 0..3 (thorough 0..6) symbolic native keys, II UU LL QQ (thorough + IU UI LQ QL)'
     return {'obligations': obs, 'bounds': bounds}
+
+
+def sound_obligations(pid, tier, seed):
+    """C03: the induction step on object keys plus accepted / rejected writes of the native families (a write that the
+    value conversion rejects after the tree has made room for it must leave a sound tree)."""
+    from harness import h_repr
+    r = step_obligations(pid, tier, seed, 'sound', mutating_only=True)
+    npal = len(h_repr.INTS + h_repr.FLOATS + h_repr.OTHERS) + 1
+    t = 200 if tier == 'quick' else 600
+    for fam in (['II', 'OI', 'IF', 'LL'] if tier == 'quick' else ['II', 'OI', 'IF', 'LL']):
+        for impl in ('c', 'py'):
+            for kind in ('BTree', 'TreeSet') if tier == 'quick' else ('BTree', 'Bucket', 'TreeSet', 'Set'):
+                ne = len(h_repr.NS_ENTRIES if kind in ('Set', 'TreeSet') else h_repr.N_ENTRIES)
+                for n0 in (0, 3):
+                    r['obligations'].append(dict(id='%s/native/%s/%s/%s/n%d' % (pid, fam, impl, kind, n0), mod='h_repr', fn='native', nk=0,
+                                                 args=[('e', 'int'), ('p', 'int')], pre=['0 <= e < %d' % ne, '0 <= p < %d' % npal],
+                                                 params=dict(family=fam, kind=kind, impl=impl, n0=n0), timeout=t))
+    r['bounds']['native_families'] = 'II OI IF LL: every writing entry point x a palette of %d representable / unrepresentable arguments, from 0 and 3 entries' % npal
+    return r
 
 
 # ---------------------------------------------------------------------------
@@ -380,6 +399,15 @@ def setop_obligations(pid, tier, seed):
                         P = dict(impl=impl, ka=ka, kb=kb, na=na, nb=nb)
                         obs.append(dict(id='%s/%s/%s-%s/%d%d' % (pid, impl, ka, kb, na, nb), mod='h_setop', fn='setop_case',
                                         nk=0, args=args, pre=pre, params=P, timeout=t))
+        # None (the smallest object key) as the first key of either or both container operands
+        conts = ['Set', 'TreeSet', 'Bucket', 'BTree']
+        for ka in conts:
+            for kb in conts:
+                for na, nb in (((1, 1), (2, 2)) if tier == 'quick' else ((1, 1), (1, 2), (2, 1), (2, 2), (3, 3))):
+                    args = [('a%d' % i, 'int') for i in range(na)] + [('b%d' % i, 'int') for i in range(nb)] + [('an', 'bool'), ('bn', 'bool')]
+                    pre = ([' < '.join('a%d' % i for i in range(na))] if na > 1 else []) + ([' < '.join('b%d' % i for i in range(nb))] if nb > 1 else [])
+                    obs.append(dict(id='%s/%s/%s-%s/%d%d/none' % (pid, impl, ka, kb, na, nb), mod='h_setop', fn='setop_case',
+                                    nk=0, args=args, pre=pre, params=dict(impl=impl, ka=ka, kb=kb, na=na, nb=nb), timeout=t))
         # multi-leaf tree operands (3 keys at leaf size 2) against every kind, also in the quick tier
         if tier == 'quick':
             for ka, kb in (('TreeSet', 'TreeSet'), ('BTree', 'TreeSet'), ('TreeSet', 'BTree'), ('Set', 'BTree'), ('TreeSet', 'list'),
@@ -476,7 +504,7 @@ def cmpfail_obligations(pid, tier, seed):
         for kind, tag, tpl, hist, L, I in sh:
             m = shapes.n_ranks(tpl)
             is_set = kind == 'TreeSet'
-            groups = [('write', 3, ['x']), ('del', 4 if not is_set else 3, ['x']), ('read', 5 if not is_set else 2, ['x']),
+            groups = [('write', 3, ['x']), ('del', 4 if not is_set else 3, ['x']), ('read', 5 if not is_set else 3, ['x']),
                       ('range', 3, ['x', 'y'])]
             groups.append(('inplace', 4, ['x', 'y']) if is_set else ('bulk', 2, ['x', 'y']))
             for g, nops, argn in groups:
@@ -496,7 +524,7 @@ def cmpfail_obligations(pid, tier, seed):
         for kind in ('Bucket', 'Set'):
             is_set = kind == 'Set'
             for n in (0, 1, 3):
-                groups = [('write', 3, ['x']), ('del', 4 if not is_set else 3, ['x']), ('read', 5 if not is_set else 2, ['x']),
+                groups = [('write', 3, ['x']), ('del', 4 if not is_set else 3, ['x']), ('read', 5 if not is_set else 3, ['x']),
                           ('range', 3, ['x', 'y'])]
                 for g, nops, argn in groups:
                     args = [(a_, 'int') for a_ in argn] + [('op', 'int'), ('f', 'int')]
@@ -636,13 +664,21 @@ def iter_obligations(pid, tier, seed):
     obs = []
     quick = tier == 'quick'
     t = 60 if quick else 600
-    sh, bounds = tree_shapes(tier, seed, quick_extra=(0, 0), cap=30)
+    sh, bounds = tree_shapes(tier, seed, quick_extra=(0, 0), cap=8)
+    QUICK_IT = ['NDN', 'NNDN', 'NDDN', 'NPN', 'NCN', 'NIN', 'DNN', 'NDNDN']
     if quick:
-        pats_it = ['NDN', 'NNDN', 'NDDN', 'NPN', 'NCN', 'NIN', 'DNN', 'NDNDN']
+        pats_it = QUICK_IT
         pats_lazy = ['NDN', 'NPN', 'NCN']
+        pats_it2 = pats_lazy2 = ['NDN']
+        rest_it, rest_lazy = pats_it, pats_lazy
     else:
-        pats_it = _patterns(5, 3)
+        # sized by wall time (about 15k obligations): the full pattern sets on the stratified core, a short list on
+        # the sampled rest of the catalogues
+        pats_it = sorted(set(_patterns(4, 3)) | set(QUICK_IT))
         pats_lazy = [p_ for p_ in _patterns(4, 2) if p_.count('N') <= 2]
+        pats_it2 = sorted(set(_patterns(3, 2)) | set(QUICK_IT))         # iteritems / iterkeys share the iterator code
+        pats_lazy2 = ['NDN', 'NPN', 'NCN', 'NIN']                       # items / values share the finger code
+        rest_it, rest_lazy = pats_it2, ['NDN', 'NPN', 'NCN']
     pats = sorted(set(pats_it) | set(pats_lazy))
 
     def add(P, base, nkeys, nleaf, src, pat):
@@ -666,15 +702,16 @@ def iter_obligations(pid, tier, seed):
             nleaf = len(shapes.leaf_keys(tpl))
             P = dict(family='OO', impl=impl, kind=kind, tpl=tpl, L=L, I=I, prov='loaded')
             base = '%s/%s/%s/%s%s/%s' % (pid, impl, kind, tag, '' if (L, I) == (2, 2) else '%d%d' % (L, I), sid(tpl))
-            for pat in pats_it:
+            core = tag == 'core' or quick
+            for pat in (pats_it if core else rest_it):
                 add(P, base, m, nleaf, 'iter', pat)
-            for pat in pats_lazy:
+            for pat in (pats_lazy if core else rest_lazy):
                 if quick and m > 3:
                     continue
                 add(P, base, m, nleaf, 'keys', pat)
             if not is_set:
                 for src in ('iteritems', 'items') + (() if quick else ('iterkeys', 'values')):
-                    for pat in (['NDN'] if quick else (pats_it if src.startswith('iter') else pats_lazy)):
+                    for pat in ((pats_it2 if src.startswith('iter') else pats_lazy2) if core else ['NDN']):
                         if quick and src == 'items' and m > 3:
                             continue
                         add(P, base, m, nleaf, src, pat)
@@ -832,6 +869,11 @@ def repr_obligations(pid, tier, seed):
                 obs.append(dict(id='%s/native/%s/%s/%s' % (pid, fam, impl, kind), mod='h_repr', fn='native', nk=0,
                                 args=[('e', 'int'), ('p', 'int')], pre=['0 <= e < %d' % ne, '0 <= p < %d' % npal],
                                 params=dict(family=fam, kind=kind, impl=impl), timeout=t))
+                # the same writes into an empty container (and, thorough, one with three entries)
+                for n0 in ((0,) if kind in ('BTree', 'TreeSet') else ()) if quick else (0, 3):
+                    obs.append(dict(id='%s/native/%s/%s/%s/n%d' % (pid, fam, impl, kind, n0), mod='h_repr', fn='native', nk=0,
+                                    args=[('e', 'int'), ('p', 'int')], pre=['0 <= e < %d' % ne, '0 <= p < %d' % npal],
+                                    params=dict(family=fam, kind=kind, impl=impl, n0=n0), timeout=t))
     # engine E2: the conversion macros of the real family sources from clang IR, argument = unbounded integer
     for fam in ('II', 'UU', 'LL', 'QQ') + (() if quick else ('IU', 'UI', 'LQ', 'QL', 'IO', 'OI', 'OL', 'OU', 'OQ', 'UO', 'LO', 'QO')):
         for which in ('key', 'value'):
@@ -889,6 +931,21 @@ def weighted_obligations(pid, tier, seed):
                         P = dict(impl=impl, family='OL', ka=ka, kb=kb, na=na, nb=nb)
                         obs.append(dict(id='%s/%s/%s-%s/%d%d' % (pid, impl, ka, kb, na, nb), mod='h_weighted', fn='weighted_case',
                                         nk=0, args=args, pre=pre, params=P, timeout=t))
+        # one object as both operands
+        for ka in ('Set', 'TreeSet', 'Bucket', 'BTree'):
+            for na in range(0, mx + 1):
+                args = [('a%d' % i, 'int') for i in range(na)] + [('fn', 'int'), ('dflt', 'bool'), ('w1', 'int'), ('w2', 'int')]
+                args += [('va%d' % i, 'int') for i in range(na)]
+                pre = ([' < '.join('a%d' % i for i in range(na))] if na > 1 else []) + ['0 <= fn < 2']
+                nva = na if ka in ('Bucket', 'BTree') else 0
+                if impl == 'c':
+                    pre += ['0 <= w1 < %d' % len(h_weighted.WPAL), '0 <= w2 < 2']
+                    pre += ['0 <= va%d < %d' % (i, len(h_weighted.VPAL) if i < nva else 1) for i in range(na)]
+                else:
+                    pre += ['-100 <= w1 <= 100', '-100 <= w2 <= 100']
+                    pre += ['-100 <= va%d <= 100' % i if i < nva else 'va%d == 1' % i for i in range(na)]
+                obs.append(dict(id='%s/%s/%s-same/%d' % (pid, impl, ka, na), mod='h_weighted', fn='weighted_case', nk=0, args=args, pre=pre,
+                                params=dict(impl=impl, family='OL', ka=ka, kb=ka, na=na, nb=0, same=True), timeout=t))
         for ka in ('Set', 'TreeSet', 'Bucket', 'BTree'):
             for kb in ('Set', 'TreeSet', 'Bucket', 'BTree'):
                 obs.append(dict(id='%s/%s/float/%s-%s' % (pid, impl, ka, kb), mod='h_weighted', fn='weighted_float', nk=0,
@@ -1021,8 +1078,8 @@ PROPS = {
         assumptions=COMMON_ASSUME,
     ),
     'C03': dict(
-        families=['OO'],
-        gen=lambda tier, seed: step_obligations('C03', tier, seed, 'sound', mutating_only=True),
+        families=['OO', 'II', 'OI', 'IF', 'LL'],
+        gen=lambda tier, seed: sound_obligations('C03', tier, seed),
         explanation='Induction step for structural soundness: from every catalogue shape (sound by the independent walker) one '
                     'symbolic mutating public call is executed on the real code; afterwards _check(), BTrees.check.check() '
                     'and an independent walker (leaf chain == leaves by descent, strict ascending order, separator ranges, '
